@@ -49,9 +49,13 @@ def run_translator():
     tr = os.path.join(ROOT, "translator", "translate.py")
     if not os.path.exists(tr):
         return
+    failures = []
     rc, out, err = sh([sys.executable, tr, REPO, os.path.join(LEAN, "SimVerif", "Gen")])
     if rc != 0:
-        raise MachineryError("translator failed: " + (out + err)[-2000:])
+        # the source no longer has the shape the translator reads: the generated constants cannot be refreshed.
+        # The previously generated file stays (so that the machinery still builds) and every property is
+        # reported with a broken proof obligation: its theorems no longer speak about the current source.
+        failures.append("translator/translate.py cannot regenerate Gen/Consts.lean from the current source: " + (out + err).strip()[-600:])
     # the Python-binding table (C18). If the bindings can no longer be read into the wrapper calculus the
     # table is emptied, so that C18's completeness theorem fails and the check reports it (no machinery error)
     pt = os.path.join(ROOT, "translator", "pytable.py")
@@ -62,6 +66,7 @@ def run_translator():
         path = os.path.join(LEAN, "SimVerif", "Gen", "PyTable.lean")
         if not os.path.exists(path) or open(path).read() != stub:
             open(path, "w").write(stub)
+    return failures
 
 
 def lake_build(targets):
@@ -219,6 +224,39 @@ def has_nonfinite(impl):
     return False
 
 
+def run_cases_isolated(lines, imp, why):
+    cases, cur = [], []
+    for l in lines:
+        if l.startswith("case") and cur:
+            cases.append(cur); cur = []
+        cur.append(l)
+    if cur: cases.append(cur)
+    out = []
+    died = 0
+    for c in cases:
+        if died >= 5:
+            out += [l + " => " + ("" if l.startswith("case") else "PANIC skipped: the executor died on 5 earlier cases of this run") for l in c]
+            continue
+        p = subprocess.run([VH], input="\n".join(c) + "\n", stdout=subprocess.PIPE, stderr=subprocess.PIPE, text=True, timeout=3600)
+        got = p.stdout.split("\n")
+        if got and got[-1] == "": got.pop()
+        if p.returncode == 0 and len(got) == len(c):
+            out += got; continue
+        died += 1
+        got = got[:len(c)]
+        # a partially written last line cannot be trusted
+        if got and " => " not in got[-1] and not got[-1].startswith("case"): got.pop()
+        msg = (p.stderr.strip().split("\n") or [""])[-1][:200].replace(" ", "_")
+        for k, l in enumerate(c[len(got):]):
+            if k == 0:
+                got.append(l + f" => PANIC abort:_the_executor_process_died_(rc={p.returncode})_{msg}")
+            else:
+                got.append(l + " => PANIC skipped_after_abort")
+        out += got
+    with open(imp, "w") as f:
+        f.write("\n".join(out) + "\n")
+
+
 MIDDLE_STAGE = None
 
 
@@ -233,7 +271,10 @@ def run_pipeline(lines, tag, wdir):
     with open(req) as fi, open(imp, "w") as fo:
         p = subprocess.run([VH], stdin=fi, stdout=fo, stderr=subprocess.PIPE, text=True, timeout=7200)
     if p.returncode != 0:
-        raise MachineryError(f"vh crashed (rc={p.returncode}): {p.stderr[-2000:]}")
+        # the executor process died (abort: panic while panicking / in a destructor, allocation failure, …). That is
+        # a failure of the code under test on some request, not of the machinery: re-run case by case, each in its own
+        # process, and answer the request on which the process dies with `PANIC abort …` (the rest of that case: skipped)
+        run_cases_isolated(lines, imp, p.stderr[-300:])
     if MIDDLE_STAGE:
         # an extra executor between the Rust executor and the model driver (C18: the Python module)
         imp2 = os.path.join(wdir, tag + ".impl2")
@@ -390,8 +431,9 @@ def check_property(pid, tier, seed, replay=None):
     kf = load_known()
     known_keys = {d["key"]: d for d in kf["finding"] if d["property"] == pid and d["key"]}
 
-    run_translator()
+    tr_failures = run_translator()
     pres = proof_obligations(prop)
+    pres["failures"] = tr_failures + pres["failures"]
     proof_broken = bool(pres["failures"])
     if proof_broken and "build_log" in pres and not os.path.exists(SIMDRV):
         raise MachineryError("simdrv does not build:\n" + pres["build_log"])
